@@ -57,6 +57,9 @@ func (eng) CoqRequire(mode string) string {
 func (eng) CoqCaseType(mode string) string { return "Check_job.case" }
 func (eng) CoqRun(mode string) string      { return "Check_job.run" }
 func (eng) Rule(mode string) string {
+	if mode == "state" {
+		return "a real operator (real DKV, counting handler, every event its own batch) applies keyed events over 3 keys, takes complete checkpoints (barriers of both runners) and is redeployed in place with NO checkpoint to restore after events were applied, with the latest checkpoint after later events, or with an older one; the count the handler is given for every event is compared with the state of the checkpoint named by the last deploy plus the events since; non-trivial: at least one event after a redeployment"
+	}
 	if mode == "slot" {
 		return "a real operator with 1..3 upstream source runners receives barriers of checkpoint a from a strict subset (possibly empty) of its runners, is deployed again (surviving worker), optionally receives stale barriers of a from a strict subset after the redeploy (known finding), then receives all barriers of checkpoint b; a retention update is sent before the first deploy; parking is observed at the operator.align.park hook, not by time-out; non-trivial: at least one barrier was registered before the second deploy"
 	}
@@ -864,6 +867,9 @@ func obsTerm(o obs) string {
 func (e eng) Execute(mode string, c *hx.Case) (*hx.Result, error) {
 	if mode == "slot" {
 		return executeSlot(c)
+	}
+	if mode == "state" {
+		return executeState(c)
 	}
 	wc := intParam(c, "wc", 1)
 	dl := intParam(c, "deadline", 5000)
